@@ -242,6 +242,11 @@ pub struct Engine {
     pub filter_log: FilterLog,
     pub shared: Option<Shared>,
     pub probe_keys: Vec<Vec<u8>>,
+    /// cost control for big key universes (bulk prelude): after a step that changed no version
+    /// only the keys the step wrote plus a rotating 1/stride slice of the universe are probed
+    pub probe_window: bool,
+    pub probe_round: usize,
+    pub touched: BTreeSet<Vec<u8>>,
     pub op_idx: usize,
     /// all blob pointers ever observed per blob file: id -> (offset -> (on_disk, size))
     pub blob_seen: BTreeMap<u64, BTreeMap<u64, (u32, u32)>>,
@@ -292,6 +297,9 @@ impl Engine {
             filter_log: Arc::new(Mutex::new(Vec::new())),
             shared,
             probe_keys: probe.into_iter().collect(),
+            probe_window: false,
+            probe_round: 0,
+            touched: BTreeSet::new(),
             op_idx: 0,
             blob_seen: BTreeMap::new(),
             dead_blob_lag: BTreeMap::new(),
@@ -368,6 +376,7 @@ impl Engine {
             let t = self.tree.as_ref().unwrap();
             match w.kind {
                 WKind::Put => {
+                    self.touched.insert(w.k.0.clone());
                     if w.v.0.len() >= 65_536 {
                         self.stats.inc("probe_value_of_64k_or_more");
                     }
@@ -376,10 +385,12 @@ impl Engine {
                         .write(&w.k.0, s, MKind::Value(w.v.0.clone()), Loc::Active);
                 }
                 WKind::Del => {
+                    self.touched.insert(w.k.0.clone());
                     let _ = t.remove(w.k.0.as_slice(), s);
                     self.model.write(&w.k.0, s, MKind::Tomb, Loc::Active);
                 }
                 WKind::WeakDel => {
+                    self.touched.insert(w.k.0.clone());
                     let _ = t.remove_weak(w.k.0.as_slice(), s);
                     self.model.write(&w.k.0, s, MKind::WeakTomb, Loc::Active);
                 }
@@ -1169,7 +1180,13 @@ impl Engine {
     /// Point-read oracle for one snapshot.
     fn check_point_reads(&mut self, s: u64, at: u64, tag: &str, frozen: Option<&View>) -> R<()> {
         let tree = self.tree.clone().unwrap();
-        for k in &self.probe_keys {
+        let n = self.probe_keys.len();
+        let stride = if self.probe_window && n > 96 { n.div_ceil(64) } else { 1 };
+        let phase = self.probe_round % stride;
+        for (i, k) in self.probe_keys.iter().enumerate() {
+            if stride > 1 && i % stride != phase && !self.touched.contains(k) {
+                continue;
+            }
             let want: Option<Vec<u8>> = match frozen {
                 Some(f) => f.get(k).map(|(v, _)| v.clone()),
                 None => self.model.get(k, s, at).map(|(v, _)| v.to_vec()),
@@ -1326,7 +1343,12 @@ impl Engine {
         if is_read_only {
             return Ok(());
         }
-        self.check_reads()?;
+        self.probe_window = !version_changed;
+        self.probe_round += 1;
+        let r = self.check_reads();
+        self.probe_window = false;
+        self.touched.clear();
+        r?;
         // 4. structural audits after version changes
         if version_changed {
             self.audit_step(maintenance_t)?;
@@ -1341,7 +1363,7 @@ impl Engine {
         match r {
             Err(v)
                 if !self.opts.decisive.contains(&v.tag)
-                    && matches!(v.tag.as_str(), "structure" | "gc_stats" | "seqno" | "files") =>
+                    && matches!(v.tag.as_str(), "structure" | "gc_stats" | "seqno" | "files" | "pointer") =>
             {
                 self.stats.inc(&format!("obs:{} ({})", v.class, v.tag));
                 self.stats.observations.push(format!("{}: {}", v.class, v.msg));
@@ -1456,8 +1478,8 @@ impl Engine {
         for (f, set) in &refs {
             if !in_version.contains(f) {
                 return Err(self.viol(
-                    "gc_stats",
-                    "gc_stats/dangling-pointer",
+                    "pointer",
+                    "pointer/dangling",
                     format!(
                         "version {} has {} pointer(s) into blob file {f}, which the version does not contain",
                         a.version_id,
